@@ -132,7 +132,11 @@ func ruleSendPResp2(c *RC) *RuleResult {
 }
 
 func (c *RC) verifierFuncs() []*FuncInfo {
+	if c.verifiers != nil {
+		return c.verifiers
+	}
 	var out []*FuncInfo
+	in := map[*FuncInfo]bool{}
 	for _, fn := range c.Prog.dbftFuncs() {
 		if !boolResult(fn) {
 			continue
@@ -140,8 +144,75 @@ func (c *RC) verifierFuncs() []*FuncInfo {
 		for _, s := range c.A.FnSites[fn] {
 			if s.Kind == "call" && (s.Callee == "cb:VerifyBlock" || s.Callee == "cb:VerifyPreBlock") {
 				out = append(out, fn)
+				in[fn] = true
 				break
 			}
+		}
+	}
+	// closure: a boolean function whose every true result comes after a verifier returned true is a verifier too
+	// (the verification may have been split over helpers)
+	for changed := true; changed; {
+		changed = false
+		for _, fn := range c.Prog.dbftFuncs() {
+			if in[fn] || !boolResult(fn) || c.A.isPure(fn) {
+				continue
+			}
+			calls := false
+			for _, s := range c.A.FnSites[fn] {
+				if s.Kind == "call" && s.Target != nil && in[s.Target] {
+					calls = true
+				}
+			}
+			if !calls {
+				continue
+			}
+			nt, all := 0, true
+			for _, e := range c.exitsOf(fn) {
+				if len(e.Ret) == 0 || e.Ret[0].S != "true" {
+					if len(e.Ret) > 0 && e.Ret[0].S != "false" {
+						all = false // result not a constant on this path
+					}
+					continue
+				}
+				nt++
+				has := false
+				for v := range in {
+					if e.Events["fn:"+v.Name+"=true"] {
+						has = true
+					}
+				}
+				all = all && has
+			}
+			if nt > 0 && all {
+				in[fn] = true
+				out = append(out, fn)
+				changed = true
+			}
+		}
+	}
+	c.verifiers = out
+	return out
+}
+
+// topVerifiers: verifiers that no other verifier calls (the ones whose result the handlers act upon).
+func (c *RC) topVerifiers() []*FuncInfo {
+	vs := c.verifierFuncs()
+	in := map[*FuncInfo]bool{}
+	for _, v := range vs {
+		in[v] = true
+	}
+	called := map[*FuncInfo]bool{}
+	for _, v := range vs {
+		for _, s := range c.A.FnSites[v] {
+			if s.Kind == "call" && s.Target != nil && in[s.Target] && s.Target != v {
+				called[s.Target] = true
+			}
+		}
+	}
+	var out []*FuncInfo
+	for _, v := range vs {
+		if !called[v] {
+			out = append(out, v)
 		}
 	}
 	return out
@@ -254,13 +325,15 @@ func ruleRespMatch(c *RC) *RuleResult {
 	r := &RuleResult{Rule: "G-RESP-MATCH", Kind: "GUARD", Doc: "a stored PrepareResponse naming another proposal is removed: on arrival when the proposal is known, and when the proposal arrives (before any quorum test)"}
 	// (1) in the function storing a received response: on the path where the proposal is recorded and hashes differ, the entry is nil-ed before return
 	var respStore *FuncInfo
+	isPrimSender := func(sn *Snap) *Atom {
+		if sn.Val == nil || sn.Val.K != KParam {
+			return nil
+		}
+		return mkAtom("eq", getter("ConsensusPayload", "ValidatorIndex", sn.Val, true), tPrimaryIndex)
+	}
 	for _, s := range c.writesTo("ctx.PreparationPayloads") {
-		for _, sn := range s.Snaps {
-			if sn.Val != nil && sn.Val.K == KParam {
-				if v, ok := sn.F.value(mkAtom("eq", getter("ConsensusPayload", "ValidatorIndex", sn.Val, true), tPrimaryIndex)); ok && !v {
-					respStore = s.Fn
-				}
-			}
+		if t := c.roleSite(s, isPrimSender, false); t != nil {
+			respStore = t.Fn
 		}
 	}
 	if respStore == nil {
@@ -297,12 +370,8 @@ func ruleRespMatch(c *RC) *RuleResult {
 	// comparing PreparationHash with msg.Hash precedes every checkPrepare-like call (QUORUM site) in that call.
 	var reqStore *Site
 	for _, s := range c.writesTo("ctx.PreparationPayloads") {
-		for _, sn := range s.Snaps {
-			if sn.Val != nil && sn.Val.K == KParam {
-				if v, ok := sn.F.value(mkAtom("eq", getter("ConsensusPayload", "ValidatorIndex", sn.Val, true), tPrimaryIndex)); ok && v {
-					reqStore = s
-				}
-			}
+		if t := c.roleSite(s, isPrimSender, true); t != nil {
+			reqStore = t
 		}
 	}
 	r.Sites++
@@ -364,9 +433,19 @@ func ruleRespMatch(c *RC) *RuleResult {
 	}
 	// every quorum-check call in the proposal receiver after the store has the purge event
 	okAll := true
-	for _, s := range c.A.FnSites[reqStore.Fn] {
-		if s.Kind == "call" && s.Target != nil && c.reachesQuorumTest(s.Target) && s.Node.Pos() > reqStore.Node.Pos() {
+	var after []*Site
+	{
+		rec := c.inlineSites(reqStore.Fn, false)
+		for _, g := range c.Prog.sortedFuncs() {
+			after = append(after, rec.FnSites[g]...)
+		}
+	}
+	for _, s := range after {
+		if s.Kind == "call" && s.Target != nil && c.reachesQuorumTest(s.Target) {
 			for _, sn := range s.Snaps {
+				if sn.Killed["ctx.PreparationPayloads"]&(KillNNOwn|KillNNSender|KillNNOther|KillNNPrimary|KillAny) == 0 {
+					continue // the proposal has not been stored on this path yet
+				}
 				has := false
 				for _, e := range evs {
 					if sn.Events[e] {
@@ -384,6 +463,56 @@ func ruleRespMatch(c *RC) *RuleResult {
 		r.ok(reqStore.Fn.Name + ": " + strings.Join(evs, "|") + " precedes every quorum test after the proposal is stored")
 	}
 	return r
+}
+
+// roleSite finds the function in which the site s plays a role that is told apart by a fact (atom of the snapshot known
+// to be `want`): s.Fn itself, or — when s sits in a single-caller helper that does not know the fact — the nearest
+// function it serves whose inline walk knows it at the site. The returned site carries that function and its snapshots.
+func (c *RC) roleSite(s *Site, atom func(sn *Snap) *Atom, want bool) *Site {
+	knows := func(t *Site) bool {
+		if len(t.Snaps) == 0 {
+			return false
+		}
+		for _, sn := range t.Snaps {
+			a := atom(sn)
+			if a == nil {
+				return false
+			}
+			if v, ok := sn.F.value(a); !ok || v != want {
+				return false
+			}
+		}
+		return true
+	}
+	if knows(s) {
+		return s
+	}
+	root := s.Fn
+	for hop := 0; hop < 4 && c.A.inlinable(root); hop++ {
+		cs := c.A.callers[root]
+		if len(cs) != 1 || cs[0].Fn == root {
+			break
+		}
+		root = cs[0].Fn
+		if c.clusterRec == nil {
+			c.clusterRec = map[*FuncInfo]*Analysis{}
+		}
+		rec := c.clusterRec[root]
+		if rec == nil {
+			rec = c.inlineSites(root, false)
+			c.clusterRec[root] = rec
+		}
+		for _, t := range rec.FnSites[s.Fn] {
+			if t.Node == s.Node && t.Kind == s.Kind && t.Loc == s.Loc {
+				cp := *t
+				cp.Fn = root
+				if knows(&cp) {
+					return &cp
+				}
+			}
+		}
+	}
+	return nil
 }
 
 // purgeFuncs: functions with a loop over PreparationPayloads that nil-s entries under a PreparationHash != Hash comparison.
